@@ -11,6 +11,7 @@ import (
 	"github.com/tevino/abool"
 
 	"github.com/safing/portbase/log"
+	"github.com/safing/portbase/utils/vhook"
 )
 
 var (
@@ -250,6 +251,7 @@ func (m *Module) start(reports chan *report) {
 }
 
 func (m *Module) checkIfStopComplete() {
+	vhook.AtS("modules.stop.check", m.Name)
 	if m.stopFlag.IsSet() &&
 		m.ctrlFuncRunning.IsNotSet() &&
 		atomic.LoadInt32(m.workerCnt) == 0 &&
@@ -294,12 +296,15 @@ func (m *Module) stopAllTasks(reports chan *report) {
 	// Manually set the control function flag in order to stop completion by race
 	// condition before stop function has even started.
 	m.ctrlFuncRunning.Set()
+	vhook.AtS("modules.stop.ctrlset", m.Name)
 
 	// Set stop flag for everyone checking this flag before we activate any stop trigger.
 	m.stopFlag.Set()
+	vhook.AtS("modules.stop.flagged", m.Name)
 
 	// Cancel the context to notify all workers and tasks.
 	m.cancelCtx()
+	vhook.AtS("modules.stop.cancelled", m.Name)
 
 	// Start stop function.
 	stopFnError := m.startCtrlFn("stop module", m.stopFn)
@@ -309,6 +314,7 @@ func (m *Module) stopAllTasks(reports chan *report) {
 	case <-m.stopComplete:
 		// Complete!
 	case <-time.After(moduleStopTimeout):
+		vhook.AtS("modules.stop.timeout", m.Name)
 		log.Warningf(
 			"%s: timed out while waiting for stopfn/workers/tasks to finish: stopFn=%v workers=%d tasks=%d microtasks=%d, continuing shutdown...",
 			m.Name,
